@@ -972,5 +972,50 @@ pub fn parts() -> Vec<Box<dyn PartDyn>> {
             fuzz: Some(crate::collector::fuzz_probe),
             watchdog_s: 0,
         }),
+        // the violation and the application's own requests in one wake-up of the I/O thread
+        Box::new(Part::<crate::checks::c20::Case> {
+            name: "batch",
+            rule: "C20's batch harness with a protocol violation instead of a server close: the I/O thread is parked inside the transport's write while a server frame that must raise a connection exception (Basic.Qos sent by the server on an open channel) and 1-3 client requests (open_channel auto/explicit, listen_for_connection_blocked, Connection::close; nowait publish, synchronous call, listener registration, Channel::close on two channels) are made pending in a generated order, so that they arrive in one poll batch; oracle: no I/O-thread panic, Connection::close returns ClientException, the client's Connection.Close is the last frame it writes, every racing request returns what it returns in a serial execution (before the violation / after it) or ClientException; non-trivial = the batch trace shows the intended tokens in the intended order in one batch; distinct by case hash",
+            cases: |t| t.pick(160, 3000),
+            threads: 8,
+            strategy: |_t| {
+                use crate::checks::c20::{Case as BCase, Kind, R0Kind, RChan};
+                let req = prop::sample::subsequence(vec![Kind::R0, Kind::RA, Kind::RB], 1..=3);
+                (
+                    req,
+                    any::<u16>(),
+                    any::<u64>(),
+                    prop_oneof![Just(R0Kind::OpenAuto), Just(R0Kind::OpenExplicit), Just(R0Kind::ListenBlocked), Just(R0Kind::Close)],
+                    prop_oneof![Just(RChan::PublishNowait), Just(RChan::SyncCall), Just(RChan::ListenReturns), Just(RChan::CloseChannel)],
+                    prop_oneof![Just(RChan::PublishNowait), Just(RChan::SyncCall), Just(RChan::ListenReturns), Just(RChan::CloseChannel)],
+                )
+                    .prop_map(|(mut order, pos, perm, r0, ra, rb)| {
+                        // a generated permutation of the requests, the violation at a generated position
+                        let mut p = perm;
+                        for i in (1..order.len()).rev() {
+                            let j = (p % (i as u64 + 1)) as usize;
+                            p /= i as u64 + 1;
+                            order.swap(i, j);
+                        }
+                        let at = crate::gen::pick(pos, order.len() + 1);
+                        order.insert(at, Kind::SV);
+                        BCase {
+                            order,
+                            r0,
+                            ra,
+                            rb,
+                            code: 0,
+                            text: String::new(),
+                        }
+                    })
+                    .boxed()
+            },
+            exec: crate::checks::c20::exec,
+            enumerate: None,
+            shrink_budget: 30,
+            confirm_runs: 3,
+            fuzz: None,
+            watchdog_s: 60,
+        }),
     ]
 }
